@@ -111,6 +111,13 @@ def main():
                 broken.append('theorem %s depends on axioms %s' % (t, ax[t]))
             else:
                 discharged += 1
+        if tier == 'thorough':
+            mods = getattr(mod, 'PROOF_MODULES', [prop])
+            rc, lc_out = common.run(['lake', 'env', 'leanchecker'] + ['PylxProofs.' + m for m in mods], cwd=common.LEAN, timeout=3600)
+            audit_notes.append('leanchecker exit %d' % rc)
+            if rc != 0:
+                broken.append('leanchecker rejects the compiled proof modules: %s' % lc_out[-500:])
+                discharged = 0
         hits = common.forbidden_scan()
         if hits:
             broken.append('forbidden tokens in Lean sources: %s' % hits[:5])
@@ -231,6 +238,7 @@ def main():
                 'CPython 3.12.1 standard library semantics'],
             'theorems': theorems,
             'axioms': ax,
+            'audit_notes': audit_notes,
             'evaluations': len(cases),
             'distinct_nontrivial': len(nontrivial),
             'rule': getattr(mod, 'RULE', ''),
